@@ -21,7 +21,7 @@ def ser_method(name, sig_rw, spec_ok, extra_err="", passthru=None, extra_rw=""):
         err += "\n            r is Err ==> (r matches Err(Error::BufferTooSmall)),"
         err += f"\n            r is Err ==> {short},"
         okpre = ""
-    out.append(f'''//@extract id=ser.{name} file={F} path="{SER}/fn {name}" tags=C03
+    out.append(f'''//@extract id=ser.{name} file={F} path="{SER}/fn {name}" tags=C03,C02
 {N5}
 {sig_rw}{extra_rw}//@ spec
         requires old(self).writer.wfw(),
@@ -51,7 +51,7 @@ ser_method("serialize_none", SELF0, "s_null()")
 ser_method("serialize_some", SELF1, "value.enc()", passthru="value")
 
 def compound_ctor(name, sig_rw, ret_rw, prefix, empty_suffix, lenexpr):
-    out.append(f'''//@extract id=ser.{name} file={F} path="{SER}/fn {name}" tags=C03
+    out.append(f'''//@extract id=ser.{name} file={F} path="{SER}/fn {name}" tags=C03,C02
 {N5}
 {sig_rw}{ret_rw}//@ spec
         requires old(self).writer.wfw(),
@@ -103,7 +103,7 @@ def key_method(name, spec_ok=None, passthru=None, ml=False, ret_impossible=None)
         spec = f'''            r is Ok ==> final(self.ser).writer.appended(&old(self.ser).writer, {spec_ok}),   //# U3.key.{name}
             r is Err ==> (r matches Err(Error::BufferTooSmall)) && final(self.ser).writer.keeps(&old(self.ser).writer)
                 && old(self.ser).writer.out().len() + ({spec_ok}).len() > old(self.ser).writer.cap(),   //# U3.key.{name}.err'''
-    out.append(f'''//@extract id=key.{name} file={F} path="{KEY}/fn {name}" tags=C03
+    out.append(f'''//@extract id=key.{name} file={F} path="{KEY}/fn {name}" tags=C03,C02
 {N5}
 {rw}//@ spec
         requires old(self.ser).writer.wfw(),
@@ -144,7 +144,7 @@ def elem(trait, fn, newname, what, rewrites="", passkey=False):
         okv, enc, cond = "value.encodable()", "seq![0x3au8] + value.enc()", "value.encodable()"
     elif what == "FIELD":
         okv, enc, cond = "value.encodable()", f"{COMMA} + enc_str(key.spec_bytes()) + seq![0x3au8] + value.enc()", "value.encodable()"
-    out.append(f'''//@extract id=compound.{newname} file={F} path="impl {trait} for Compound/fn {fn}" tags=C03
+    out.append(f'''//@extract id=compound.{newname} file={F} path="impl {trait} for Compound/fn {fn}" tags=C03,C02
 {N5}
 //@ rename {newname}
 {rewrites}//@ spec
@@ -159,7 +159,7 @@ def elem(trait, fn, newname, what, rewrites="", passkey=False):
 //@end
 ''')
 def end(trait, newname, suffix_nonempty, suffix_always="Seq::<u8>::empty()", rewrites=""):
-    out.append(f'''//@extract id=compound.{newname} file={F} path="impl {trait} for Compound/fn end" tags=C03
+    out.append(f'''//@extract id=compound.{newname} file={F} path="impl {trait} for Compound/fn end" tags=C03,C02
 {N5}
 //@ rename {newname}
 {rewrites}//@ spec
